@@ -1189,8 +1189,12 @@ func (w *worker) runCombine(ctx context.Context, task *Task, taskStats *stats.Ma
 			}
 
 			flushed := pcomb.Compact()
-			combErr := combiner.Combine(ctx, flushed)
-			combiners[p] <- combiner
+			combErr := func() error {
+				// Hand the shared combiner back even if the user's combine
+				// function panics: other users (and the commit) wait for it.
+				defer func() { combiners[p] <- combiner }()
+				return combiner.Combine(ctx, flushed)
+			}()
 			if combErr != nil {
 				return combErr
 			}
@@ -1204,8 +1208,10 @@ func (w *worker) runCombine(ctx context.Context, task *Task, taskStats *stats.Ma
 	// Flush the remainder.
 	for p, comb := range partitionCombiner {
 		combiner := <-combiners[p]
-		err := combiner.Combine(ctx, comb.Compact())
-		combiners[p] <- combiner
+		err := func() error {
+			defer func() { combiners[p] <- combiner }()
+			return combiner.Combine(ctx, comb.Compact())
+		}()
 		if err != nil {
 			return err
 		}
